@@ -2,18 +2,21 @@ from props.common import run_all as run  # noqa: F401
 
 META = {'claimed': True,
  'title': 'Every CPU-accelerated code path computes the same function as the portable one',
- 'level_text': 'proof for CRC32C and AES/AES-CTR paths, correspondence for SHA-256 paths (SHA theorems in progress): the CRC32 instruction is modelled per the Intel SDM at every operand width and '
-               'proved to be the bit-serial register run, _mm_crc32_u8 = the portable table step, a little-endian n-byte load = n byte steps; CRC32C_Update_SSE42 (unaligned head / aligned 8-byte '
-               'body / tail, both the u64 and the 2xu32 build) equals the portable byte fold for EVERY address, state and data (C03_crc_update_sse42_eq_any_address), CRC32C_Update with its len >= 8 '
-               'routing equals the portable function whatever hwaccel is, and whole streams under every configuration, base address and partition give the portable result '
-               '(C03_crc_stream_any_config); the self-test passes at every alignment so selection depends on the feature bit only. AES: the AES-NI block path equals FIPS-197 (the reference the '
-               'portable OpenSSL path is compared with); crypto_aesctr_aesni_stream and the portable stream write the same bytes and leave observably equal states from any state satisfying the '
-               'stream invariant (C03_ctr_stream_aesni_eq), and any two configurations and partitions give the same bytes (C03_ctr_any_config_same_bytes). SHA-256: SHA256_Transform_sse2 / _shani are '
-               'modelled over an x86 vector-instruction model with the instruction sequences regenerated from the C; every instruction model is compared with the real instruction on this CPU '
-               '(boundary operands, every immediate), the compiled transforms and all three alg/sha256.c configurations (portable, SSE2, SHA-NI+SSSE3; selection probed white-box) are compared with '
-               'the proven portable model and the FIPS compression function. Configurations x alignments 0..15 x lengths around thresholds x partitions in the correspondence run.',
- 'level_note': 'Trusted: Coq kernel + vm_compute; the x86 instruction semantics in Accel/X86Vec.v, Sse42Crc.v, AesNi.v (validated instruction by instruction against this CPU, not proved); '
-               "translators x_crc.py, x_aes.py, x_accel.py; the portable AES block function is OpenSSL's (not modelled: equality is stated against FIPS-197). Only paths this host can execute are "
-               'run (it has sha_ni, ssse3, sse4_2, aes); ARM paths are out of scope of the property. Print Assumptions: closed under the global context.',
+ 'level_text': 'proof: every accelerated path the host can execute is modelled at instruction level (x86 vector / CRC32 / AES-NI / SHA-NI semantics per the Intel SDM), with the instruction and '
+               'constant sequences REGENERATED from the C on every run and tied to the proved sequences by vm_compute lemmas. SHA-256: SHA256_Transform_sse2 (MSG4 schedule) and '
+               'SHA256_Transform_shani (sha256rnds2/msg1/msg2 sequencing) equal the portable transform and the FIPS 180-4 compression function for every state and block (C03_sha256_sse2_eq_fips180, '
+               'C03_sha256_shani_eq_fips180); every case of the switch(hwaccel) in alg/sha256.c does (C03_sha256_transform_any_hw); Init/Update*/Final and SHA256_Buf under ANY hwaccel value, '
+               'partition, length and from any well-formed context give the FIPS digest, equal across any two configurations (C03_sha256_stream_any_hw_is_fips180, _any_two_configs, '
+               'C03_sha256_resume_any_hw); the self-test passes in the model so selection depends on build flags and CPU bits only. CRC32C: the CRC32 instruction at every width = bit-serial '
+               'register; CRC32C_Update_SSE42 (unaligned head / aligned 8-byte body / tail; u64 and 2xu32 builds) = portable byte fold for EVERY address, state and data; the len >= 8 routing and '
+               'whole streams under every configuration, address and partition give the portable result (C03_crc_stream_any_config). AES: AES-NI key expansion (128/256) and block encryption = '
+               'FIPS-197; crypto_aesctr_aesni_stream and the portable stream write the same bytes from any state satisfying the stream invariant, any two configurations and partitions agree '
+               '(C03_ctr_any_config_same_bytes); the selection logic of crypto_aes.c and crypto_aesctr.c is regenerated and proved consistent for every (CPU bit, self-test outcome). 31+ theorems, '
+               'unbounded in data, alignment and partition. Bound to the compiled code by the correspondence run: every instruction model against the real instruction on this CPU (boundary operands, '
+               'every immediate); the compiled transforms and every cpusupport configuration of sha256.c / crc32c.c / crypto_aes*.c (selection probed white-box; a silent fallback is reported) '
+               'against the models and standards; alignments 0..15, lengths around the thresholds, partitions switching paths inside one stream.',
+ 'level_note': 'Trusted: Coq kernel + vm_compute; the x86 instruction semantics in Accel/X86Vec.v, Sse42Crc.v, AesNi.v (validated instruction by instruction against this CPU; the SDM semantics '
+               "themselves are trusted); translators x_crc.py, x_aes.py, x_accel.py; the portable AES block function is OpenSSL's (not modelled: equality is stated against FIPS-197). Only paths this "
+               'host can execute are run (it has sha_ni, ssse3, sse4_2, aes); ARM paths are out of scope of the property. Print Assumptions: closed under the global context.',
  'trusted_base': ['x86 instruction semantics (Intel SDM pseudo-code) in coq/Accel/*.v', 'cpusupport configuration headers under harness/cpuconfig/'],
  'assumptions': ['the host executes SSE2, SSSE3, SSE4.2, AES-NI and SHA-NI (probed; a silent fallback is reported as not covered)']}
